@@ -7,4 +7,4 @@ Require Import ExtrOcamlBasic.
 From TV Require Import Model.Dream.
 Extraction Language OCaml.
 Set Extraction Optimize.
-Extraction "../ocaml/gen/dream.ml" run init_pdf uniform_update gaussian_update.
+Extraction "../ocaml/gen/dream.ml" run init_pdf apply_op run_ops uniform_update gaussian_update.
